@@ -14,26 +14,44 @@ PID = "C15"
 RULE = ("(prog) Field(mesh, nvdim, value, norm, valid) on exact-regime 1-4-d meshes with 1-4 components, then 0-3 steps out of "
         "{norm = spec, update_field_values, valid = spec}: after the constructor and after every step the array, validity and "
         "metadata, Field.norm and Field.orientation are compared with the rational model (the constructor as one model call, every "
-        "step as a model call on the implementation's own pre-state). Cell vectors are scaled Pythagorean tuples (rational length, so "
-        "the model side is exact), exact zeros, axis-aligned vectors and scalars sitting exactly on / one ulp beside the 1e-8 "
-        "threshold, magnitudes 2^-40..2^498; comparator: arrays that did not go through the setter and norms of single-component "
-        "cells exactly, setter results within 16u, norms 4u, orientation 8u per component (relative, so zeros are exact). Norm specs: "
-        "number (float/int/np.float64), per-cell array of shape n and (*n,1), other broadcastable shapes, nested lists, non-negative "
-        "polynomial callable of position vanishing on a plane of cells, zero targets in places, None; valid: None/True/False/mask/'norm'. "
-        "(generic) arbitrary binary64 vectors 1e-6..1e150 sent as the exact rationals they are, same comparator. (malformed) wrong "
-        "shapes / lengths / nvdim=0: ok/err must agree. Oracle on the real code alone, per cell in exact arithmetic on the outputs: "
-        "non-zero -> squared length t^2 within 16u, all 2x2 cross terms vanish within 16u, positive dot product for t>0; zero stays "
-        "exactly zero; t=0 gives exactly zero; norm: one component, same mesh/unit/validity, x>=0, x^2 = sum v^2 within 8u, |v| exactly "
-        "for scalars; orientation: |o|^2 = 1 within 16u above the threshold, exactly zero at or below it, o*norm = v within 8u; "
-        "constructor = values then norm then validity (valid='norm' reflects the final lengths); update_field_values == array of a "
-        "fresh Field with that value. non-trivial = some non-zero cell and a norm actually set")
+        "step as a model call (Model.step) on the implementation's own pre-state). Cell vectors are scaled Pythagorean tuples (rational "
+        "length, so the model side is exact), exact zeros, axis-aligned vectors and scalars sitting exactly on / one ulp beside the 1e-8 "
+        "threshold, vectors whose every component is at or below 1e-8 while the vector is longer, magnitudes 2^-40..2^498; comparator: "
+        "arrays that did not go through the setter and norms of single-component cells exactly, setter results within 16u, norms 4u, "
+        "orientation 8u per component (relative, so zeros are exact; the proved bounds are 6u / 15/4 u / 39/8 u). Norm specs: number "
+        "(float/int/np.float64), per-cell array of shape n and (*n,1), other broadcastable shapes, nested lists, non-negative polynomial "
+        "callable of position vanishing on a plane of cells, zero targets in places, None, and a one-component Field on the same mesh or "
+        "on another dyadic mesh whose region contains the receiver's (cells 1/2..3 times as wide, origin shifted so that receiving cell "
+        "centres fall inside, on centres and exactly on faces of the norm field's cells; compared exactly, ties included); valid: "
+        "None/True/False/mask/'norm' (so norms are assigned on fields with non-trivial masks, in the constructor and afterwards). "
+        "(generic) arbitrary binary64 vectors 1e-6..1e150 sent as the exact rationals they are, same comparator. (bits) arbitrary "
+        "binary64 cells (components of very different size, zeros, around the threshold) and targets: Field.norm, Field.orientation "
+        "and the array after one norm assignment against the rounded kernel (flNormCell/flSetCell/flOrientCell, one rounding after "
+        "every operation) run with the executable binary64 rounding fl64 and root sqrt64: whether every output number is "
+        "IDENTICAL is recorded per case in the distribution (tag bits:bit-identical-to-fl64-kernel; all cases on this tree); the "
+        "verdict uses the 16u/4u/8u comparator, so a numerically harmless re-ordering of the library's arithmetic is not an alarm. (complex) "
+        "dtype=complex fields with 1-2 components through the (re, im) view (array.view(float)) against the real model with twice as "
+        "many components: constructor with norm and valid, norm / valid assignments. (malformed) wrong shapes / lengths / nvdim=0 / "
+        "vector field or non-containing field as norm: ok/err must agree. Oracle on the real code alone, per cell in exact arithmetic "
+        "on the outputs (for EVERY cell, valid or not): non-zero -> squared length t^2 within 16u, all 2x2 cross terms vanish within "
+        "16u, positive dot product for t>0; zero stays exactly zero; t=0 gives exactly zero; norm: one component, same mesh/unit/validity, "
+        "x>=0, x^2 = sum v^2 within 8u, |v| exactly for scalars; orientation: |o|^2 = 1 within 16u above the threshold, exactly zero at "
+        "or below it, o*norm = v within 8u; constructor = values then norm then validity (valid='norm' reflects the final lengths); "
+        "update_field_values == array of a fresh Field with that value; field as norm: target = value of the norm field's cell "
+        "containing the centre (no demand where the centre lies on a face). non-trivial = some non-zero cell and a norm actually set")
 TRUSTED = ["harness/c15.py, harness/fieldio.py + driver JSON glue",
-           "np.linalg.norm(axis=-1) is sqrt of the sum of squares; np.divide(where=, out=), np.isclose(x, 0) (|x| <= 1e-8) and NumPy broadcasting modelled by contract",
-           "the driver instantiates the sqrt parameter with sqrtQ (proved exact on rational squares; floor at 2^-96 relative resolution elsewhere, used only under the 8u comparator)"]
+           "np.linalg.norm(axis=-1) is sqrt of the left-to-right sum of squares (observed bit for bit by the 'bits' stream); np.divide(where=, out=), np.isclose(x, 0) (|x| <= 1e-8) and NumPy broadcasting modelled by contract",
+           "DataArray.sel(method='nearest') / pandas get_indexer modelled by contract (nearest coordinate, larger index on a tie; checked exactly incl. ties)",
+           "the driver instantiates the sqrt parameter with sqrtQ (proved exact on rational squares; floor at 2^-96 relative resolution elsewhere, used only under the 8u comparator); in the 'bits' stream with sqrt64 (validated bit for bit against np.sqrt; proved: relative error <= 2^-53) and fl64 (proved: |fl64 x - x| <= 2^-53 |x|)",
+           "complex division by the real norm and complex multiplication by the real target act on real and imaginary part separately (exact in real arithmetic; NumPy's reciprocal-multiply rounding is inside the 16u comparator)"]
 ASSUMPTIONS = ["theorems carry SqrtAt sqrt x (non-negative root) as an explicit hypothesis at the arguments used; instantiated by sqrtQ on rational squares and by Real.sqrt on all non-negative reals",
-               "binary64 standard model without under/overflow: squared lengths stay within 2^-80 .. 2^1011",
+               "rounding theorems carry FlOk fl u (|fl x - x| <= u|x|, the standard model without under/overflow) with u <= 2^-10 and at most four components; instantiated by fl64 (proved) and by any Rounding of Lemmas/Rounding.lean; squared lengths stay within 2^-80 .. 2^1011 in the generators",
+               "a field given as norm has the receiver's dimension names in the same order (selection is by name; other cases are outside the model)",
                "a rejected norm assignment leaves the receiver normalised to unit length (the division has already been stored); the property does not speak about rejected norms, recorded as observation only"]
-UNPROVED = ["IEEE rounding of the division, multiplication and of np.linalg.norm (bounded by the 16u / 4u / 8u comparators, not by a theorem)"]
+UNPROVED = ["sqrt64 is proved to have relative error <= 2^-53 (its square within 2u+3u^2 of the radicand), not to be the CORRECTLY rounded root, and fl64(sqrt64 x) = sqrt64 x is not proved: the end-to-end bounds for the executable kernel (exec64_*) therefore carry 15u / 10u / 13u instead of the 13u / 8u / 10u proved for an exact root with one rounding (both are inside the 16u / 16u oracle tolerances; the norm comparator 4u is justified by the exact-root theorem only)",
+            "rounding bounds for more than four components, for u > 2^-10, and for complex fields (NumPy divides a complex by a real through a reciprocal: two roundings instead of one)",
+            "norm specifications outside the model: dict of subregions (C02's domain), a Field with other dimension names, non-numeric types (str -> TypeError), a complex target on a real field (TypeError)",
+            "Field.orientation as a constructor call with explicit labels/mapping (the model copies them; the getter Field.norm IS proved to be the constructor call)"]
 BUDGET = {"quick": 100, "thorough": 900}
 
 U = Fraction(1, 2 ** 53)
@@ -95,7 +113,12 @@ def gen_cell(rng, nv, style):
         v = [Fraction(0)] * nv
         v[rng.randrange(nv)] = Fraction(x)
         return v
-    if style == "tiny":  # rational length below / around the threshold
+    if style == "percell" and nv > 1:  # every component at or below the 1e-8 threshold, the vector above it (rational length)
+        base, c = {2: ((3, 4), Fraction(19, 2 ** 33)), 3: ((1, 2, 2), Fraction(17, 2 ** 32)), 4: ((1, 1, 1, 1), Fraction(15, 2 ** 31))}[nv]
+        perm = list(base)
+        rng.shuffle(perm)
+        return [Fraction(rng.choice([-1, 1]) * b) * c for b in perm]
+    if style in ("tiny", "percell"):  # rational length below / around the threshold
         base = rng.choice(PYTH[nv])
         k = rng.randint(-40, -24)
     else:
@@ -119,11 +142,11 @@ def gen_cells(rng, ncell, nv):
         elif mode == "zeros":
             st = "zero" if r < 0.5 else "plain"
         elif mode == "thresh":
-            st = "thresh" if r < 0.6 else ("plain" if r < 0.9 else "zero")
+            st = "thresh" if r < 0.45 else "percell" if r < 0.6 else ("plain" if r < 0.9 else "zero")
         elif mode == "tiny":
             st = "tiny" if r < 0.7 else ("plain" if r < 0.9 else "zero")
         else:
-            st = rng.choice(["plain", "wide", "zero", "thresh", "tiny"])
+            st = rng.choice(["plain", "wide", "zero", "thresh", "tiny", "percell"])
         out.append(gen_cell(rng, nv, st))
     return out
 
@@ -199,11 +222,57 @@ def gen_signed_poly(rng, ms):
     return terms
 
 
+def box_of(ms):
+    lo = [min(Fraction(a), Fraction(b)) for a, b in zip(ms["p1"], ms["p2"])]
+    hi = [max(Fraction(a), Fraction(b)) for a, b in zip(ms["p1"], ms["p2"])]
+    return lo, hi
+
+
+def gen_field_nspec(rng, ms, malformed=None):
+    """a Field as norm: on the receiver's own mesh, or on a different dyadic mesh whose region contains the receiver's
+    (cells half / equal / 3/2 / twice / three times as wide, origin shifted by 0, 1/4, 1/2 or 1 of its cells, so that the
+    receiver's cell centres fall inside, on the centres of, and exactly on the faces of the norm field's cells)"""
+    n = list(ms["n"])
+    nd = len(n)
+    lo, hi = box_of(ms)
+    cell = [(b - a) / k for a, b, k in zip(lo, hi, n)]
+    mode = rng.choice(["same", "same", "other", "other", "other"])
+    p1, p2, nh = list(lo), list(hi), list(n)
+    if mode == "other" or malformed == "notcontain":
+        p1, p2, nh = [], [], []
+        for a in range(nd):
+            ch = cell[a] * rng.choice([Fraction(1, 2), Fraction(1), Fraction(2), Fraction(3), Fraction(3, 2)])
+            start = lo[a] - ch * rng.choice([Fraction(0), Fraction(1, 2), Fraction(1), Fraction(1, 4)])
+            k = max(1, math.ceil((hi[a] - start) / ch)) + rng.choice([0, 0, 1])
+            p1.append(start)
+            p2.append(start + k * ch)
+            nh.append(k)
+        if int(np.prod(nh)) > 400:
+            p1, p2, nh = list(lo), list(hi), list(n)
+    if malformed == "notcontain":  # cut one cell of the receiver off the norm field's region
+        a = rng.randrange(nd)
+        p1, p2, nh = list(lo), list(hi), list(n)
+        if rng.random() < 0.5:
+            p1[a] = lo[a] + cell[a]
+        else:
+            p2[a] = hi[a] - cell[a]
+        if p1[a] >= p2[a]:
+            p1[a], p2[a] = lo[a] + cell[a], hi[a] + cell[a]
+        nh[a] = 1
+    nv = 2 if malformed == "vector" else 1
+    ncell = int(np.prod(nh))
+    data = [[Q(Fraction(rng.choice([0, 1, 2, 3, 5, 8]), rng.choice([1, 2, 4]))) for _ in range(nv)] for _ in range(ncell)]
+    return dict(k="field", nvdim=nv, data=data,
+                mesh=dict(p1=[fl(Q(x)) for x in p1], p2=[fl(Q(x)) for x in p2], n=nh, dims=ms.get("dims"), bc="", intcorners=False))
+
+
 def gen_nspec(rng, ms, malformed=False):
     n = list(ms["n"])
     ncell = int(np.prod(n))
     if malformed:
-        kind = rng.choice(["badshape", "lastaxis", "longer"])
+        kind = rng.choice(["badshape", "lastaxis", "longer", "field-vector", "field-notcontain"])
+        if kind.startswith("field-"):
+            return gen_field_nspec(rng, ms, kind[6:])
         if kind == "badshape":
             shape = list(n)
             shape[rng.randrange(len(n))] += 1
@@ -214,7 +283,9 @@ def gen_nspec(rng, ms, malformed=False):
         if shape == n:
             shape = n + [2]
         return dict(k="arr", shape=shape, data=[Q(rng.randint(1, 5)) for _ in range(int(np.prod(shape)))], **{"as": "ndarray"})
-    kind = rng.choice(["const", "const", "arr", "arr", "col", "poly", "poly", "bcast", "one"])
+    kind = rng.choice(["const", "const", "arr", "arr", "col", "poly", "poly", "bcast", "one", "field", "field"])
+    if kind == "field":
+        return gen_field_nspec(rng, ms)
     if kind == "const":
         return dict(k="const", v=Q(gen_target(rng)), py=rng.choice(["float", "int", "npfloat"]))
     if kind == "arr":
@@ -336,6 +407,55 @@ def gen_generic(rng, tier):
                 steps=([] if rng.random() < 0.3 else [dict(k="set_norm", spec=ns)]))
 
 
+def gen_cplx(rng, tier):
+    """complex field (dtype=complex): 1-2 complex components per cell whose (re, im) view is a scaled Pythagorean tuple, an
+    exact zero or sits at the threshold; real norm specifications; steps: norm / valid assignments"""
+    ms = fieldio.gen_mesh_spec(rng, max_cells=24, nmax=4)
+    nv = rng.choice([1, 2])
+    ncell = int(np.prod(ms["n"]))
+    case = dict(kind="cplx", mesh=ms, nvdim=nv, value=[Qs(v) for v in gen_cells(rng, ncell, 2 * nv)],
+                norm=(None if rng.random() < 0.4 else gen_nspec(rng, ms)), valid=gen_valid(rng, ms),
+                unit=rng.choice([None, "A/m"]), steps=[])
+    for _ in range(rng.choice([0, 1, 1, 2])):
+        if rng.random() < 0.8:
+            case["steps"].append(dict(k="set_norm", spec=gen_nspec(rng, ms)))
+        else:
+            case["steps"].append(dict(k="set_valid", spec=gen_valid(rng, ms)))
+    return case
+
+
+def gen_bits(rng, tier):
+    """cells for the bit-exact comparison of the rounded kernel (one binary64 rounding after every operation): arbitrary
+    binary64 vectors 1e-6..1e150 with components of very different size, exact zeros, vectors around the 1e-8 threshold,
+    Pythagorean vectors; constant or per-cell targets (arbitrary binary64, zero in places)"""
+    ms = fieldio.gen_mesh_spec(rng, max_cells=16, nmax=4)
+    nv = rng.choice([1, 2, 3, 4])
+    ncell = int(np.prod(ms["n"]))
+    r2 = random.Random(rng.getrandbits(32))
+    cells = []
+    for _ in range(ncell):
+        r = r2.random()
+        if r < 0.08:
+            cells.append([0.0] * nv)
+        elif r < 0.2:
+            cells.append([float(x) for x in gen_cell(r2, nv, r2.choice(["plain", "wide", "tiny", "thresh"]))])
+        else:
+            mag = 10.0 ** r2.uniform(-6, 150) if r < 0.5 else 10.0 ** r2.uniform(-6, 3) if r < 0.85 else 10.0 ** r2.uniform(-8.5, -7.5)
+            v = [r2.gauss(0, 1) * 10.0 ** r2.choice([0, 0, 0, -1, -3, -8]) for _ in range(nv)]
+            if r2.random() < 0.2:
+                v[r2.randrange(nv)] = 0.0
+            nrm = math.sqrt(sum(x * x for x in v)) or 1.0
+            cells.append([x / nrm * mag for x in v])
+    if rng.random() < 0.5:
+        t = 10.0 ** r2.uniform(-6, 100) if r2.random() < 0.5 else r2.uniform(0.1, 10)
+        targets = [t] * ncell
+        const = True
+    else:
+        targets = [0.0 if r2.random() < 0.1 else (r2.uniform(0.001, 50) if r2.random() < 0.7 else 10.0 ** r2.uniform(-6, 100)) for _ in range(ncell)]
+        const = False
+    return dict(kind="bits", mesh=ms, nvdim=nv, cells=[Qs(v) for v in cells], targets=Qs(targets), const=const)
+
+
 def cases(rng, tier):
     N = 1 if tier == "quick" else 6
     # small exhaustive scope: every (nvdim, norm-spec kind family) at least once on a 1-d two-cell mesh is covered by the
@@ -349,6 +469,10 @@ def cases(rng, tier):
         yield gen_generic(rng, tier)
     for _ in range(200 * N):
         yield gen_prog(rng, tier, malformed=True)
+    for _ in range(100 * N):
+        yield gen_cplx(rng, tier)
+    for _ in range(120 * N):
+        yield gen_bits(rng, tier)
 
 
 # ------------------------------------------------------------------ specs -> python objects
@@ -365,6 +489,11 @@ def py_nspec(s):
     if s["k"] == "arr":
         a = np.array([fl(x) for x in s["data"]], dtype=float).reshape(s["shape"])
         return a.tolist() if s.get("as") == "list" else a
+    if s["k"] == "field":
+        hm = fieldio.build_mesh(s["mesh"])
+        nv = s["nvdim"]
+        a = np.array([[fl(x) for x in row] for row in s["data"]], dtype=float).reshape(*s["mesh"]["n"], nv)
+        return df.Field(hm, nvdim=nv, value=a)
     terms = s["terms"]
     return lambda p: poly_eval_float(terms, p)
 
@@ -398,6 +527,8 @@ def targets_of(s, ms):
         return [fr(s["v"])] * ncell
     if s["k"] == "poly":
         return [poly_eval_frac(s["terms"], p) for p in centres_frac(ms)]
+    if s["k"] == "field":
+        return field_targets(s, ms)[0]
     a = np.array([fr(x) for x in s["data"]], dtype=object).reshape(s["shape"])
     try:
         if list(a.shape) == n:
@@ -411,14 +542,59 @@ def targets_of(s, ms):
     return list(b.reshape(-1))
 
 
+def field_targets(s, ms):
+    """norm given as a Field: per receiving cell the value of the norm field's cell that contains the receiving cell's
+    centre, computed in exact arithmetic from the two mesh specs.  Returns (targets, tie): targets[k] is None where the
+    centre lies exactly on a face between two cells of the norm field (which neighbour is 'nearest' is not for the
+    property to say); tie[k] tells that this happened."""
+    if s["nvdim"] != 1:
+        return None, None
+    hs = s["mesh"]
+    lo, hi = box_of(hs)
+    nh = hs["n"]
+    ch = [(b - a) / k for a, b, k in zip(lo, hi, nh)]
+    vals = np.array([fr(row[0]) for row in s["data"]], dtype=object).reshape(nh)
+    out, ties = [], []
+    for p in centres_frac(ms):
+        idx, tie = [], False
+        for a in range(len(nh)):
+            q = (p[a] - lo[a]) / ch[a]
+            if q.denominator == 1 and 0 < q < nh[a]:
+                tie = True
+            idx.append(min(max(math.floor(q), 0), nh[a] - 1))
+        ties.append(tie)
+        out.append(None if tie else vals[tuple(idx)])
+    return out, ties
+
+
 # ------------------------------------------------------------------ observation + oracle
+def real_view(a, nv):
+    """(cells, components) as a real 2-d array; a complex component is the pair (re, im): array.view(float)"""
+    a = np.asarray(a)
+    if np.iscomplexobj(a):
+        return np.ascontiguousarray(a.reshape(-1, nv)).view(float).reshape(-1, 2 * nv)
+    return np.asarray(a, dtype=float).reshape(-1, nv)
+
+
 def rows(f):
-    nv = f.nvdim
-    return [[Fraction(float(x)) for x in row] for row in np.asarray(f.array, dtype=float).reshape(-1, nv).tolist()]
+    return [[Fraction(float(x)) for x in row] for row in real_view(f.array, f.nvdim).tolist()]
+
+
+def view_json(f):
+    """driver JSON of a field; a complex field is sent as the real field with twice as many components that
+    array.view(float) shows (labels and mapping do not enter C15's operations and are left out)"""
+    if not np.iscomplexobj(f.array):
+        return fieldio.field_json(f)
+    return dict(mesh=fieldio.mesh_json(f.mesh), nvdim=2 * int(f.nvdim),
+                data=[Qs(row) for row in real_view(f.array, f.nvdim).tolist()],
+                valid=[bool(v) for v in np.asarray(f.valid).reshape(-1).tolist()], vdims=None, vmap=[], unit=f.unit)
 
 
 def snap(f):
-    return dict(field=fieldio.field_json(f), norm=fieldio.field_json(f.norm), orientation=fieldio.field_json(f.orientation))
+    o = f.orientation
+    if np.iscomplexobj(f.array) and not np.iscomplexobj(o.array):
+        raise core.MachineryError("orientation of a complex field is not complex")
+    return dict(field=view_json(f), norm=fieldio.field_json(f.norm), orientation=view_json(o))
 
 
 def sq(v):
@@ -472,7 +648,7 @@ def check_derived(name, f, fail, tagset=None):
         if x[k] < 0 or abs(x[k] * x[k] - l2) > 8 * U * l2:
             fail(f"{name}: norm at cell {k} is {float(x[k])} for vector {[float(a) for a in v[k]]}")
             return
-        if nv == 1 and x[k] != abs(v[k][0]):
+        if len(v[k]) == 1 and x[k] != abs(v[k][0]):
             fail(f"{name}: scalar norm at cell {k} is {float(x[k])}, |value| is {float(abs(v[k][0]))}")
             return
     of = f.orientation
@@ -491,6 +667,8 @@ def check_derived(name, f, fail, tagset=None):
             tagset.add("orient:zero-vector" if l2 == 0 else "orient:below-threshold" if below else "orient:above" if above else "orient:band")
             if l2 != 0 and exact_len(v[k]) and abs(l2 - ATOL * ATOL) <= ATOL * ATOL / 2 ** 40:
                 tagset.add("orient:within-1e-12-of-threshold-exact")
+            if above and all(abs(a) <= ATOL for a in v[k]):
+                tagset.add("orient:every-component-at-or-below-threshold-vector-above")
         if below:
             if any(a != 0 for a in o[k]):
                 fail(f"{name}: orientation at cell {k} (length {math.sqrt(float(l2))} <= 1e-8) is {[float(a) for a in o[k]]}, not zero")
@@ -507,6 +685,14 @@ def check_derived(name, f, fail, tagset=None):
 
 
 def nspec_tags(s, ms):
+    if s is not None and s["k"] == "field":
+        if s["nvdim"] != 1:
+            return ["norm-field:vector"]
+        lo, hi = box_of(ms)
+        hlo, hhi = box_of(s["mesh"])
+        same = (lo, hi, list(ms["n"])) == (hlo, hhi, list(s["mesh"]["n"]))
+        ties = field_targets(s, ms)[1]
+        return ["norm-field:" + ("same-mesh" if same else "other-mesh")] + (["norm-field:centre-on-face"] if any(ties) else [])
     if s is None or s["k"] != "arr":
         return []
     n = list(ms["n"])
@@ -530,6 +716,12 @@ def cell_tags(pre_rows, targets):
     return sorted(out)
 
 
+def cplx_value(case):
+    nv = case["nvdim"]
+    a = np.array([[fl(x) for x in row] for row in case["value"]], dtype=float).reshape(-1, 2 * nv)
+    return np.ascontiguousarray(a).view(complex).reshape(*case["mesh"]["n"], nv)
+
+
 def run_impl(case):
     obs = {"oracle": [], "tags": [], "snaps": [], "pre": [], "err_at": None}
     fail = obs["oracle"].append
@@ -537,6 +729,10 @@ def run_impl(case):
     mesh = fieldio.build_mesh(ms)
     obs["mesh"] = fieldio.mesh_json(mesh)
     tags = obs["tags"]
+    if case.get("kind") == "cplx":
+        return run_impl_cplx(case, obs, mesh)
+    if case.get("kind") == "bits":
+        return run_impl_bits(case, obs, mesh)
     tags.append("generic" if case.get("generic") else ("malformed:" + case["bad"] if case.get("bad") else "exact"))
     tags += [f"nvdim:{nv}", f"ndim:{len(ms['n'])}", "ctor-norm:" + (case["norm"]["k"] if case["norm"] else "None"),
              "ctor-valid:" + case["valid"]["k"], "value:" + case["value"]["k"]]
@@ -641,10 +837,134 @@ def run_impl(case):
     return obs
 
 
+def bits_mismatch(obs, outs, strict):
+    """implementation vs the rounded kernel run with binary64 rounding (fl64 / sqrt64).  strict: every output number
+    must be identical (used for the evidence statistic only).  Otherwise the usual comparator applies - setter 16u,
+    norm 4u, orientation 8u per component relative to the model's number, no demand on the orientation of a cell whose
+    length is within 64u of the threshold - so that a numerically harmless re-ordering of the library's arithmetic is
+    not an alarm."""
+    def differs(x, y, rel):
+        fx, fy = F(x), F(y)
+        return fx != fy and (strict or abs(fx - fy) > rel * abs(fy))
+
+    for k, out in enumerate(outs):
+        if differs(obs["norm0"][k], out["norm"], 4 * U):
+            return f"bits: norm of cell {k}: impl {float(F(obs['norm0'][k]))!r} vs model {float(F(out['norm']))!r}"
+        near = abs(F(out["norm"]) - ATOL) <= 64 * U * ATOL
+        if not (near and not strict) and any(differs(x, y, 8 * U) for x, y in zip(obs["orient0"][k], out["orient"])):
+            return (f"bits: orientation of cell {k}: impl {[float(F(x)) for x in obs['orient0'][k]]} vs model "
+                    f"{[float(F(x)) for x in out['orient']]}")
+        if any(differs(x, y, 16 * U) for x, y in zip(obs["set1"][k], out["set"])):
+            return (f"bits: cell {k} after the norm assignment: impl {[float(F(x)) for x in obs['set1'][k]]} vs model "
+                    f"{[float(F(x)) for x in out['set']]}")
+    return None
+
+
+def run_impl_bits(case, obs, mesh):
+    """norm getter, orientation and one norm assignment on arbitrary binary64 cells; every output number is recorded exactly"""
+    fail = obs["oracle"].append
+    ms, nv = case["mesh"], case["nvdim"]
+    n = list(ms["n"])
+    a = np.array([[fl(x) for x in row] for row in case["cells"]], dtype=float).reshape(*n, nv)
+    f = df.Field(mesh, nvdim=nv, value=a)
+    pre = rows(f)
+    tagset = set()
+    check_derived("bits: fresh field", f, fail, tagset)
+    obs["norm0"] = Qs(f.norm.array.reshape(-1).tolist())
+    obs["orient0"] = [Qs(r) for r in f.orientation.array.reshape(-1, nv).tolist()]
+    ts = [fl(x) for x in case["targets"]]
+    f.norm = ts[0] if case["const"] else np.array(ts, dtype=float).reshape(n)
+    post = rows(f)
+    obs["set1"] = [Qs(r) for r in f.array.reshape(-1, nv).tolist()]
+    targets = [fr(x) for x in case["targets"]]
+    check_rescaled("bits: norm assignment", pre, post, targets, fail)
+    tagset.update(cell_tags(pre, targets))
+    obs["nonzero"] = any(any(x != 0 for x in v) for v in pre)
+    obs["normset"] = True
+    # evidence statistic (not a verdict): is the implementation bit for bit the rounded kernel with binary64 rounding?
+    ref = core.driver([dict(op="fl_cells", cells=case["cells"], targets=case["targets"], atol=Q(ATOL))], PID)[0]["ok"]
+    ident = bits_mismatch(obs, ref, strict=True) is None
+    obs["tags"] += ["bits", "bits:" + ("bit-identical-to-fl64-kernel" if ident else "NOT-bit-identical-to-fl64-kernel"),
+                    f"nvdim:{nv}", "bits-target:" + ("const" if case["const"] else "array")] + sorted(tagset)
+    return obs
+
+
+def run_impl_cplx(case, obs, mesh):
+    """complex fields: same observations and the same per-cell oracle, on the (re, im) view of the arrays"""
+    fail = obs["oracle"].append
+    tags = obs["tags"]
+    ms, nv = case["mesh"], case["nvdim"]
+    tags += ["complex", f"nvdim:{nv}-complex", f"ndim:{len(ms['n'])}", "ctor-norm:" + (case["norm"]["k"] if case["norm"] else "None"),
+             "ctor-valid:" + case["valid"]["k"]]
+    a = cplx_value(case)
+    plain = df.Field(mesh, nvdim=nv, value=a)
+    if not np.iscomplexobj(plain.array) or not np.array_equal(plain.array, a):
+        fail("Field(mesh, value=<complex array>) does not hold the complex values")
+        return obs
+    obs["plain"] = dict(view_json(plain), unit=case["unit"])  # the unit is a constructor argument, not part of the values
+    try:
+        f = df.Field(mesh, nvdim=nv, value=a, norm=py_nspec(case["norm"]), valid=py_valid(case["valid"]), unit=case["unit"])
+    except (TypeError, ValueError, IndexError, KeyError) as e:
+        obs["err_at"] = -1
+        obs["err"] = type(e).__name__
+        tags.append("ctor:err")
+        return obs
+    obs["snaps"].append(snap(f))
+    pre, post = rows(plain), rows(f)
+    obs["nonzero"] = any(any(x != 0 for x in v) for v in pre)
+    obs["normset"] = case["norm"] is not None
+    tagset = set(nspec_tags(case["norm"], ms))
+    if case["norm"] is not None:
+        check_rescaled("complex Field(..., norm=)", pre, post, targets_of(case["norm"], ms), fail)
+        tagset.update(cell_tags(pre, targets_of(case["norm"], ms)))
+    elif pre != post:
+        fail("complex Field(...) without norm does not hold the plain values")
+    if f.unit != case["unit"] or f.nvdim != nv or f.mesh != mesh:
+        fail("constructor changed unit, nvdim or mesh")
+    check_derived("after constructor (complex)", f, fail, tagset)
+    for si, st in enumerate(case["steps"]):
+        pre_json = view_json(f)
+        pre_rows = rows(f)
+        pre_valid = np.asarray(f.valid).copy()
+        tags.append("step:" + st["k"] + ":" + (st["spec"]["k"] if st.get("spec") else "None"))
+        try:
+            if st["k"] == "set_norm":
+                f.norm = py_nspec(st["spec"])
+            else:
+                f.valid = py_valid(st["spec"])
+        except (TypeError, ValueError, IndexError, KeyError) as e:
+            obs["pre"].append(pre_json)
+            obs["err_at"] = si
+            obs["err"] = type(e).__name__
+            tags.append("step:err")
+            tags += sorted(tagset)
+            return obs
+        obs["pre"].append(pre_json)
+        obs["snaps"].append(snap(f))
+        post_rows = rows(f)
+        name = f"step {si} ({st['k']}, complex)"
+        if not np.iscomplexobj(f.array):
+            fail(f"{name}: the field is no longer complex")
+        if st["k"] == "set_norm":
+            obs["normset"] = True
+            check_rescaled(name, pre_rows, post_rows, targets_of(st["spec"], ms), fail)
+            tagset.update(nspec_tags(st["spec"], ms))
+            tagset.update(cell_tags(pre_rows, targets_of(st["spec"], ms)))
+            if not np.array_equal(f.valid, pre_valid):
+                fail(f"{name}: setting the norm changed the validity")
+        elif post_rows != pre_rows:
+            fail(f"{name}: assigning valid changed the array")
+        check_derived(f"after {name}", f, fail, tagset)
+    tags += sorted(tagset)
+    return obs
+
+
 # ------------------------------------------------------------------ model side
 def drv_nspec(s):
     if s is None:
         return None
+    if s["k"] == "field":
+        return dict(k="field", field=fieldio.field_json(py_nspec(s)))
     return {k: v for k, v in s.items() if k not in ("as", "py")}
 
 
@@ -659,6 +979,17 @@ def drv_step(st):
 def model_requests(case, obs):
     if "mesh" not in obs:  # the adapter crashed: reported through the oracle channel by core
         return []
+    if case.get("kind") == "bits":
+        return [dict(op="fl_cells", cells=case["cells"], targets=case["targets"], atol=Q(ATOL))] if "set1" in obs else []
+    if case.get("kind") == "cplx":
+        if "plain" not in obs:
+            return []
+        # the constructor as values -> norm -> validity on the (re, im) view of the plain field
+        steps0 = ([dict(k="set_norm", spec=drv_nspec(case["norm"]))] if case["norm"] else []) + [dict(k="set_valid", spec=case["valid"])]
+        reqs = [dict(op="field_prog", field=obs["plain"], atol=Q(ATOL), steps=steps0)]
+        for si, pre in enumerate(obs["pre"]):
+            reqs.append(dict(op="field_prog", field=pre, atol=Q(ATOL), steps=[drv_step(case["steps"][si])]))
+        return reqs
     reqs = [dict(op="ctor_prog", mesh=obs["mesh"], nvdim=case["nvdim"], value=case["value"], norm=drv_nspec(case["norm"]),
                  valid=case["valid"], unit=case["unit"], atol=Q(ATOL), steps=[])]
     for si, pre in enumerate(obs["pre"]):
@@ -756,14 +1087,31 @@ def compare(case, obs, rs):
     if not rs:
         return dis
     r0 = rs[0]
-    if obs["err_at"] == -1:
+    if case.get("kind") == "bits":
+        why = bits_mismatch(obs, r0["ok"], strict=False)
+        if why:
+            dis.append(why)
+        return dis
+    if case.get("kind") == "cplx":
+        outs = r0["ok"]["steps"]
+        bad = any("ok" not in o for o in outs)
+        if obs["err_at"] == -1:
+            if not bad:
+                dis.append(f"complex constructor: impl raised {obs.get('err')} vs model ok")
+            return dis
+        if bad:
+            dis.append(f"complex constructor: impl ok vs model {outs[-1]}")
+            return dis
+        cmp_snap("complex constructor", obs["snaps"][0], outs[-1]["ok"], dis, case["norm"] is not None)
+    elif obs["err_at"] == -1:
         if "err" not in r0:
             dis.append(f"constructor: impl raised {obs.get('err')} vs model ok")
         return dis
-    if "ok" not in r0:
+    elif "ok" not in r0:
         dis.append(f"constructor: impl ok vs model {r0}")
         return dis
-    cmp_snap("constructor", obs["snaps"][0], r0["ok"]["init"], dis, case["norm"] is not None)
+    else:
+        cmp_snap("constructor", obs["snaps"][0], r0["ok"]["init"], dis, case["norm"] is not None)
     for si, r in enumerate(rs[1:]):
         st = case["steps"][si]
         out = r["ok"]["steps"][0]
